@@ -5,6 +5,7 @@ package router
 import (
 	"fmt"
 	"net"
+	"net/http"
 	"net/netip"
 	"testing"
 	"time"
@@ -13,6 +14,7 @@ import (
 	"github.com/IrineSistiana/mosproxy/internal/zzverif/env"
 	"github.com/IrineSistiana/mosproxy/internal/zzverif/refdns"
 	"github.com/IrineSistiana/mosproxy/internal/zzverif/report"
+	"github.com/valyala/fasthttp"
 )
 
 type c12Opt struct {
@@ -255,12 +257,172 @@ func c12Scenario(c *choice.Ctx, rep *report.R) {
 	rep.State(desc)
 }
 
+// c12SourceScenario: which address each listener takes as "the client address". Every listener seam with its own peer address,
+// and the two HTTP servers with client_addr_header {not configured, configured and present (single value / list), configured
+// and absent}. The front-end's own address (the TCP peer when a header is configured) must never show up in ECS.
+func c12SourceScenario(c *choice.Ctx, rep *report.R) {
+	own := env.InstallOwn(0xA5, vRace)
+	defer env.UninstallOwn()
+	const hdr = "X-Real-Client"
+	type src struct {
+		name string
+		want netip.Addr // the client address per the configuration; invalid = unknown
+		send func(v *vRouter, wire []byte) func() (done bool, body []byte)
+	}
+	clients := c12Clients()
+	var srcs []src
+	for _, sm := range c03Seams {
+		sm := sm
+		want := vClientV4.Addr()
+		if sm.name == "udp" {
+			want = netip.MustParseAddr("127.0.0.1") // real loopback sockets
+		}
+		srcs = append(srcs, src{name: "seam:" + sm.name, want: want, send: func(v *vRouter, wire []byte) func() (bool, []byte) {
+			cl := sm.open(v)
+			m, _ := refdns.Decode(wire)
+			cl.send(m)
+			return func() (bool, []byte) {
+				_, raws := cl.responses()
+				if len(raws) == 0 {
+					return false, nil
+				}
+				return true, raws[0]
+			}
+		}})
+	}
+	for _, server := range []string{"http", "fasthttp"} {
+		for _, method := range []string{"GET", "POST"} {
+			for _, mode := range []string{"no-header-configured", "header-present", "header-list", "header-absent"} {
+				for _, cli := range clients {
+					if mode == "header-absent" && cli.name != "v4" {
+						continue
+					}
+					if (mode == "header-present" || mode == "header-list") && !cli.addr.IsValid() {
+						continue
+					}
+					server, method, mode, cli := server, method, mode, cli
+					want := cli.addr
+					peer := netip.MustParseAddrPort("203.0.113.9:443") // the front-end (reverse proxy)
+					switch mode {
+					case "no-header-configured":
+						if cli.addr.IsValid() {
+							peer = netip.AddrPortFrom(cli.addr, 40000)
+						} else {
+							peer = netip.AddrPort{}
+						}
+					case "header-absent":
+						want = netip.Addr{}
+					}
+					val := cli.addr.String()
+					if mode == "header-list" {
+						val += ", 203.0.113.9, 10.0.0.1"
+					}
+					srcs = append(srcs, src{name: fmt.Sprintf("%s-%s:%s:client=%s", server, method, mode, cli.name), want: want, send: func(v *vRouter, wire []byte) func() (bool, []byte) {
+						var res *httpResult
+						if server == "http" {
+							h := v.newHTTPHandler()
+							if mode != "no-header-configured" {
+								h.clientAddrHeader = hdr
+							}
+							remote := peer.String()
+							if !peer.IsValid() {
+								remote = "@" // e.g. a unix socket: not an ip:port
+							}
+							res = vDoHRequest(h, method, wire, remote, func(r *http.Request) {
+								if mode == "header-present" || mode == "header-list" {
+									r.Header.Set(hdr, val)
+								}
+							})
+						} else {
+							h := v.newFastHTTPHandler()
+							if mode != "no-header-configured" {
+								h.clientAddrHeader = hdr
+							}
+							res = vFastDoHRequest(h, method, wire, peer, func(r *fasthttp.Request) {
+								if mode == "header-present" || mode == "header-list" {
+									r.Header.Set(hdr, val)
+								}
+							})
+						}
+						return func() (bool, []byte) {
+							return res.done, res.body // the harness goroutine holds hmu outside wait()
+						}
+					}})
+				}
+			}
+		}
+	}
+	sr := srcs[c.Choose(len(srcs), "source")]
+	cached := c.Choose(2, "refresh-too") == 1
+	desc := fmt.Sprintf("ecs=on source=%s expected-client=%v", sr.name, sr.want)
+	fail := func(sig, msg string) {
+		rep.Violate("C12:client-address:"+sig, msg+"\n  "+desc, map[string]any{"Choices": c.Choices(), "Source": true})
+	}
+	cfg := c03Config("forward")
+	cfg.ECS.Enabled = true
+	cfg.Cache.MemSize = 1 << 20
+	v, err := vNewRouter(cfg, "u1")
+	if err != nil {
+		fail("router-start", err.Error())
+		return
+	}
+	defer v.Close()
+	u := v.ups["u1"]
+	nUp := 0
+	u.Auto = nil
+	q := refdns.Query(0x1213, refdns.N("src", "example", "test"), 1, 1)
+	q.Ar = []refdns.RR{refdns.OPT(1232, 0, nil)}
+	rounds := 1
+	if cached {
+		rounds = 2 // the second query arrives in the last quarter of the ttl: the background refresh must carry the same client prefix
+	}
+	obs := ""
+	for round := 0; round < rounds; round++ {
+		poll := sr.send(v, q.Encode(false))
+		wait()
+		qs := u.Queries()
+		if len(qs) != nUp+1 {
+			fail("path", fmt.Sprintf("round %d: %d upstream queries, want 1", round, len(qs)-nUp))
+			return
+		}
+		for _, uq := range qs[nUp:] {
+			for _, b := range c12CheckUpstreamQuery(uq, true, sr.want) {
+				fail("upstream-query", fmt.Sprintf("round %d: %s", round, b))
+			}
+			if uq.Msg != nil && !uq.Answered && !uq.Gone {
+				uq.Reply(env.Answer(uq.Msg, byte(round+1), 60).Encode(false))
+			}
+		}
+		nUp = len(qs)
+		wait()
+		hsleep(100 * time.Millisecond)
+		wait()
+		done, body := poll()
+		if !done || len(body) == 0 {
+			fail("no-response", fmt.Sprintf("round %d: no response", round))
+			return
+		}
+		obs += fmt.Sprintf("%d;", len(body))
+		hsleep(50 * time.Second)
+		wait()
+	}
+	v.Close()
+	wait()
+	for _, x := range own.Audit() {
+		fail("ownership", x)
+	}
+	rep.Eval(desc + "=>" + obs)
+	rep.State(desc)
+}
+
 func TestVerifC12(t *testing.T) {
 	rep := report.New("C12 EDNS0 / ECS")
 	defer rep.Write()
 	rep.Rule = "E3: real router+cache with scripted upstream in a synctest bubble; full product ECS on/off x client address {v4, v6, v4-mapped, unknown} x rule {forward, reject, none} x client OPT {absent, empty, cookie, client ECS, padding, DO, ext-rcode/version, size 0} " +
 		"x upstream reply OPT {absent, empty, ECS scope, cookie, padding+DO}; each forward case walks miss -> hit -> hit in the last TTL quarter (background refresh) -> hit after refresh; plus ECS encoding for every single-bit and all-ones address (v4: 33, v6: 129, v4-mapped: 33); " +
-		"oracle: response has exactly one option-less OPT (size 1200, ttl field 0) iff the query had one; every upstream query (incl. refresh) has exactly one OPT with an ECS option iff enabled and address known, family/prefix 24|56, scope 0, 3|7 octets"
+		"oracle: response has exactly one option-less OPT (size 1200, ttl field 0) iff the query had one; every upstream query (incl. refresh) has exactly one OPT with an ECS option iff enabled and address known, family/prefix 24|56, scope 0, 3|7 octets; " +
+		"plus the client address each listener uses (ECS on, miss and background refresh): every listener seam with its own peer address, and the net/http and fasthttp DoH servers (GET and POST) with client_addr_header " +
+		"{not configured: peer address v4/v6/v4-mapped/not an ip:port, configured and present: single value / comma list (first entry) for v4/v6/v4-mapped, configured but absent: unknown}; the front-end's own address never appears in ECS"
 	if report.ReplayFile() == nil {
 		// ECS encoder: masking is bitwise, so single-bit + all-ones addresses cover every possible leak
 		n := 0
@@ -295,6 +457,19 @@ func TestVerifC12(t *testing.T) {
 				b[15-bit/8] = 1 << (bit % 8)
 			}
 			chk(netip.AddrFrom16(b))
+		}
+	}
+	srcReplay := false
+	if rp := report.ReplayFile(); rp != nil {
+		var x struct{ Source bool }
+		rp.Decode(&x)
+		srcReplay = x.Source
+	}
+	if srcReplay || report.ReplayFile() == nil {
+		st := runExplore(t, rep, -1, func(c *choice.Ctx) { c12SourceScenario(c, rep) })
+		rep.Count("executions_client_address", st.Executions)
+		if srcReplay {
+			return
 		}
 	}
 	st := runExplore(t, rep, -1, func(c *choice.Ctx) { c12Scenario(c, rep) })
